@@ -25,6 +25,10 @@ Monitors
                            codons fully inside the window AND the chunk
   chunk.frames             chunk_relative_frames / to_dict(chromosome_relative_coordinates=False): the exported chunk-relative
                            blocks + frames, read by framemodel as a stand-alone CDS, give exactly the codons inside the chunk
+  (history)                every chunk twin is asked in three call histories: chromosome-level questions first on a fresh object, then
+                           the chunk-level ones; chromosome-level questions AGAIN after all chunk-level accessors were touched (codon tuple
+                           cached, fast path, windows, frames, sequences); and, for CDS / transcripts, a fresh object answering all
+                           chromosome- and chunk-level questions in a seeded shuffled order - every answer must equal the fresh-object one
   collection.query         AnnotationCollection.query_by_position(qs, qe) on the whole-chromosome collection (and nested on a
                            chunk-built one): every returned gene / feature collection / transcript / feature satisfies all of
                            the above for the window (qs, qe) and keeps the guid of the whole-chromosome child
@@ -75,7 +79,8 @@ RULE = (
     "of a small genome; seeded random transcripts (1..4 exons, consistent and frameshifted frames) and collections under "
     "engineered windows (cutting the 5'/3' exon, an intron, the CDS 5' end by 1/2/3 bases, the CDS 3' end, missing the interval, "
     "whole genome) plus random windows (thorough: every window over genomes <= 36); each with guids computed and supplied; "
-    "chromosome_start/end windows combined with the chunk. Non-trivial = distinct (class, strand, #exons, #CDS blocks, 5' frame, "
+    "chromosome_start/end windows combined with the chunk; every chunk twin answers in three call histories (chromosome-level first, "
+    "chromosome-level again after all chunk-level accessors, seeded shuffled order on a fresh object). Non-trivial = distinct (class, strand, #exons, #CDS blocks, 5' frame, "
     "frameshift, exon cut class, CDS cut class incl. 5' bases cut mod 3 and 3' bases cut mod 3) where the chunk cuts or misses "
     "the interval."
 )
@@ -366,13 +371,12 @@ def _parent(genome, window=None):
     return GG.build_parent({"mode": "chunk", "genome": genome, "seqname": "chr1", "window": list(window)})
 
 
-def _answers(ctx, kind, obj, extra_windows=()):
-    """Chromosome-level answers of one object: name -> value | ('EXC', type name)."""
-    out = {}
+def _questions(kind, obj, extra_windows=()):
+    """The chromosome-level questions of one object as (name, thunk) pairs (independent of each other)."""
+    qs = []
 
     def put(name, fn):
-        r, e = ctx.call(fn)
-        out[name] = ("EXC", type(e).__name__) if e is not None else r
+        qs.append((name, fn))
 
     put("start", lambda: obj.start)
     put("end", lambda: obj.end)
@@ -396,13 +400,14 @@ def _answers(ctx, kind, obj, extra_windows=()):
         put("cds_blocks", lambda: _blocks(obj.cds_location))
         put("cds_frames", lambda: [f.value for f in obj.cds.frames] if obj.cds is not None else None)
         put("cds_num_codons", lambda: obj.cds.num_codons if obj.cds is not None else None)
+        put("cds_chromosome_codon_locations", lambda: [_positions(c) for c in obj.cds.chromosome_codon_locations] if obj.cds is not None else None)
         put("cds_guid", lambda: str(obj.cds.guid) if obj.cds is not None else None)
     if kind == "cds":
         put("frames", lambda: [f.value for f in obj.frames])
         put("num_codons", lambda: obj.num_codons)
         put("chromosome_codon_locations", lambda: [_positions(c) for c in obj.chromosome_codon_locations])
-        for (ws, we) in extra_windows:
-            put(f"scan_chromosome_codon_locations-window{len(out)}", lambda: [_positions(c) for c in obj.scan_chromosome_codon_locations(ws, we)])
+        for j, (ws, we) in enumerate(extra_windows):
+            put(f"scan_chromosome_codon_locations-window{j}", lambda ws=ws, we=we: [_positions(c) for c in obj.scan_chromosome_codon_locations(ws, we)])
     if kind in ("gene", "fcoll"):
         put("children_guids", lambda: sorted(str(g) for g in obj.children_guids))
         put("primary", lambda: obj.get_primary_feature().id)
@@ -410,7 +415,21 @@ def _answers(ctx, kind, obj, extra_windows=()):
     if kind == "coll":
         put("children_guids", lambda: sorted(str(g) for g in obj.children_guids))
         put("children_ids", lambda: [c.id for c in obj.iter_children()])
+    return qs
+
+
+def _ask(ctx, qs):
+    """Evaluate (name, thunk) pairs in the given order: name -> value | ('EXC', type name)."""
+    out = {}
+    for name, fn in qs:
+        r, e = ctx.call(fn)
+        out[name] = ("EXC", type(e).__name__) if e is not None else r
     return out
+
+
+def _answers(ctx, kind, obj, extra_windows=()):
+    """Chromosome-level answers of one object: name -> value | ('EXC', type name)."""
+    return _ask(ctx, _questions(kind, obj, extra_windows))
 
 
 def _dict_diff(a, b, path=""):
@@ -436,8 +455,10 @@ def _dict_diff(a, b, path=""):
 _GUID_FIELDS = ("gene_guid", "feature_collection_guid", "transcript_interval_guid", "feature_interval_guid", "variant_collection_guid")
 
 
-def compare_answers(ctx, kind, label, whole, chunk, window, guidmode, model=None):
-    """twin.chromosome-answers: every chromosome-level answer of the chunk twin equals the whole twin's."""
+def compare_answers(ctx, kind, label, whole, chunk, window, guidmode, model=None, history=None):
+    """twin.chromosome-answers: every chromosome-level answer of the chunk twin equals the whole twin's.  `history` names the call
+    history of the chunk twin (None = fresh object, chromosome-level questions first)."""
+    h = (history,) if history else ()
     for name, w in whole.items():
         c = chunk.get(name)
         w_exc = isinstance(w, tuple) and len(w) == 2 and w[0] == "EXC"
@@ -446,21 +467,21 @@ def compare_answers(ctx, kind, label, whole, chunk, window, guidmode, model=None
             ctx.seen("twin.chromosome-answers")
             continue
         if w_exc != c_exc:
-            _chk(ctx, "twin.chromosome-answers", False, key=(kind, name, "raised-on-one-side"), label=label, window=list(window), whole=w, chunk=c,
+            _chk(ctx, "twin.chromosome-answers", False, key=(kind, name, "raised-on-one-side") + h, label=label, window=list(window), whole=w, chunk=c,
                       guidmode=guidmode)
             continue
         if name == "to_dict":
             diff = _dict_diff(w, c)
             only_guid = bool(diff) and all(p.rsplit("/", 1)[-1] in _GUID_FIELDS for p in diff)
-            _chk(ctx, "twin.chromosome-answers", not diff, key=(kind, "to_dict", "only-guid-fields" if only_guid else "content"), label=label,
+            _chk(ctx, "twin.chromosome-answers", not diff, key=(kind, "to_dict", "only-guid-fields" if only_guid else "content") + h, label=label,
                       window=list(window), differing_paths=diff[:12], guidmode=guidmode, only_guid_fields=only_guid, klass=kind)
         elif name == "children_guids" and kind == "coll" and guidmode == "computed":
             ctx.seen("twin.chromosome-answers")   # every child's computed guid is compared on its own (twin.guid-computed)
         else:
-            _chk(ctx, "twin.chromosome-answers", w == c, key=(kind, name, "value"), label=label, window=list(window), whole=w, chunk=c, guidmode=guidmode)
+            _chk(ctx, "twin.chromosome-answers", w == c, key=(kind, name, "value") + h, label=label, window=list(window), whole=w, chunk=c, guidmode=guidmode, history=history)
     if model:
         for name, want in model.items():
-            _chk(ctx, "twin.chromosome-answers", chunk.get(name) == want, key=(kind, name, "vs-spec"), label=label, window=list(window),
+            _chk(ctx, "twin.chromosome-answers", chunk.get(name) == want, key=(kind, name, "vs-spec") + h, label=label, window=list(window),
                       chunk=chunk.get(name), want=want)
 
 
@@ -599,7 +620,7 @@ class CdsModel:
         return "".join(SM.extract(c, self.strand, self.genome) for c in codons)
 
 
-def check_cds_chunk(ctx, label, mk, M, cs, ce, ncw, widx, via_tx=False):
+def _check_cds_chunk_core(ctx, label, mk, M, cs, ce, ncw, widx, via_tx=False):
     """chunk.codons / chunk.cds-sequence / chunk.window-codons / chunk.frames for a chunk-built CDS.  mk() -> fresh CDSInterval
     (or fresh TranscriptInterval when via_tx)."""
     w = [cs, ce]
@@ -648,7 +669,7 @@ def check_cds_chunk(ctx, label, mk, M, cs, ce, ncw, widx, via_tx=False):
         if wprot is not None:
             r, e8 = ctx.call(lambda: str(c.get_protein_sequence()))
             _judge_seq(ctx, kk, "get_protein_sequence", r, e8, "".join(wprot), wcod, in_chunk, label, w, mech)
-        return
+        return a, b
     # ---- chromosome_start / chromosome_end windows combined with the chunk ---------------------------------------
     import random
 
@@ -682,13 +703,13 @@ def check_cds_chunk(ctx, label, mk, M, cs, ce, ncw, widx, via_tx=False):
     # ---- chunk-relative frames (export in chunk coordinates) -----------------------------------------------------
     if not in_chunk:
         ctx.seen("chunk.frames")
-        return
+        return a, b
     fo = b
     fr, e = ctx.call(lambda: [f.value for f in fo.chunk_relative_frames])
     d, e9 = ctx.call(lambda: fo.to_dict(chromosome_relative_coordinates=False))
     if e is not None or e9 is not None:
         _chk(ctx, "chunk.frames", False, key=("raised", type(e or e9).__name__), label=label, window=w, exc=_exc(e or e9))
-        return
+        return a, b
     cblocks = [tuple(b) for b in GG.clip_blocks(M.blocks, cs, ce)]
     got_blocks = [(s + cs, t + cs) for s, t in zip(d["cds_starts"], d["cds_ends"])]
     _chk(ctx, "chunk.frames", got_blocks == cblocks and d["cds_frames"] == [FM_NAME[f] for f in fr] and d["strand"] == ("PLUS" if M.strand == "+" else "MINUS"),
@@ -696,7 +717,7 @@ def check_cds_chunk(ctx, label, mk, M, cs, ce, ncw, widx, via_tx=False):
               frames=fr)
     if not M.consistent:
         ctx.bump("frames-skipped-frameshifted")
-        return
+        return a, b
     need = (M.f5 - M.pos.index(in_chunk[0])) % 3
     first_len = len(FM.exons_5to3(cblocks, M.strand)[0])
     whole_first = len(FM.exons_5to3(M.blocks, M.strand)[0])
@@ -705,25 +726,92 @@ def check_cds_chunk(ctx, label, mk, M, cs, ce, ncw, widx, via_tx=False):
             _chk(ctx, "chunk.frames", False, key=("frames-length",), label=label, window=w, frames=fr, blocks=cblocks)
         else:
             ctx.bump("frames-skipped-k13")
-        return
+        return a, b
     got_c = FM.codons(cblocks, M.strand, fr)
     _chk(ctx, "chunk.frames", got_c == want, key=("chunk_relative_frames", "describe-the-in-chunk-codons"), label=label, window=w, frames=fr, blocks=cblocks,
               got=got_c, want=want, need_offset=need)
+    return a, b
+
+
+def _cds_chunk_questions(get_cds):
+    """The chunk-level questions of a CDS as (name, thunk) pairs."""
+    return [("chunk_relative_codon_locations", lambda: [_lifted(c) for c in get_cds().chunk_relative_codon_locations]),
+            ("num_chunk_relative_codons", lambda: get_cds().num_chunk_relative_codons),
+            ("extract_sequence", lambda: str(get_cds().extract_sequence())),
+            ("translate", lambda: str(get_cds().translate())),
+            ("chunk-location-blocks", lambda: _blocks(get_cds().chunk_relative_location))]
+
+
+def judge_cds_chunk(ctx, kk, label, raw, M, cs, ce, history):
+    """Judge the chunk-level answers `raw` (name -> (value, exception)) of a CDS that were obtained under call history `history`."""
+    w = [cs, ce]
+    want = M.codons_in(cs, ce)
+    wseq = M.seq(want)
+    wcod = [wseq[k:k + 3] for k in range(0, len(wseq), 3)]
+    in_chunk = inside(M.pos, cs, ce)
+    mech = {"single_block": len(M.blocks) == 1, "f5": M.f5, "cds_bases_in_chunk": len(in_chunk), "d5": (M.pos.index(in_chunk[0]) if in_chunk else None)}
+    if "chunk_relative_codon_locations" in raw:
+        got, e = raw["chunk_relative_codon_locations"]
+        _chk(ctx, "chunk.codons", e is None and got == want, key=(kk, "chunk_relative_codon_locations", "raised" if e else "value", history), label=label, window=w,
+             got=got, want=want, exc=_exc(e), mech=mech, n_whole=len(M.mc), history=history)
+    if "num_chunk_relative_codons" in raw:
+        n, e = raw["num_chunk_relative_codons"]
+        _chk(ctx, "chunk.codons", e is None and n == len(want), key=(kk, "num_chunk_relative_codons", "raised" if e else "value", history), label=label, window=w,
+             got=n, want=len(want), exc=_exc(e), mech=mech, n_whole=len(M.mc), history=history)
+    if "extract_sequence" in raw:
+        r, e = raw["extract_sequence"]
+        _judge_seq(ctx, kk, "extract_sequence", r, e, wseq, wcod, in_chunk, label, w, mech, history=history)
+    wprot = FM.translate(wseq, "DEFAULT", strict=True)
+    if "translate" in raw and wprot is not None:
+        r, e = raw["translate"]
+        _judge_seq(ctx, kk, "translate", r, e, "".join(wprot), wcod, in_chunk, label, w, mech, history=history)
+    if "chunk-location-blocks" in raw:
+        r, e = raw["chunk-location-blocks"]
+        wb = [tuple(b) for b in GG.clip_blocks(M.blocks, cs, ce)]
+        gb = None if e is not None else sorted((x + cs, y + cs) for x, y in r)
+        _chk(ctx, "chunk.location", e is None and gb == wb, key=(kk, "blocks", history), label=label, window=w, got=gb, want=wb, exc=_exc(e), history=history)
+
+
+def check_cds_chunk(ctx, label, mk, M, cs, ce, ncw, widx, via_tx=False, whole_ans=None, guidmode="computed", scan_wins=(), hseed=0):
+    """All chunk-level CDS monitors, then the HISTORY passes: the chromosome-level answers are asked again on the objects whose
+    chunk-level accessors (codon tuple cache, fast path, windows, frames) were already touched, and a fresh object answers all
+    chromosome-level and chunk-level questions in a seeded shuffled order; every answer must be the same as on a fresh object."""
+    import random
+
+    a, b = _check_cds_chunk_core(ctx, label, mk, M, cs, ce, ncw, widx, via_tx)
+    if whole_ans is None:
+        return
+    kind = "tx" if via_tx else "cds"
+    kk = "tx.cds" if via_tx else "cds"
+    sw = scan_wins if kind == "cds" else ()
+    for tag, o in (("after-codon-cache", a), ("after-fast-path", b)):
+        compare_answers(ctx, kind, label, whole_ans, _answers(ctx, kind, o, sw), (cs, ce), guidmode, history=tag)
+    c = mk()
+    qs = [("chrom", n, f) for n, f in _questions(kind, c, sw)] + [("chunk", n, f) for n, f in _cds_chunk_questions(lambda: c.cds if via_tx else c)]
+    random.Random(f"{hseed}:{cs}:{ce}:{widx}").shuffle(qs)
+    raw = {}
+    for g, n, f in qs:
+        raw[(g, n)] = ctx.call(f)
+    chrom = {n: (("EXC", type(e).__name__) if e is not None else v) for (g, n), (v, e) in raw.items() if g == "chrom"}
+    compare_answers(ctx, kind, label, whole_ans, chrom, (cs, ce), guidmode, history="shuffled")
+    judge_cds_chunk(ctx, kk, label, {n: ve for (g, n), ve in raw.items() if g == "chunk"}, M, cs, ce, "shuffled")
+    ctx.bump("history-passes")
 
 
 FM_NAME = {0: "ZERO", 1: "ONE", 2: "TWO"}
 
 
-def _judge_seq(ctx, kk, name, r, e, want, wcod, in_chunk, label, w, mech):
+def _judge_seq(ctx, kk, name, r, e, want, wcod, in_chunk, label, w, mech, history=None):
+    h = (history,) if history else ()
     if e is not None:
         if not want and _bc_refusal(e):
             # latitude (a): nothing to read (no base / no complete codon of the CDS in the chunk)
             ctx.seen("chunk.cds-sequence")
             ctx.bump("cds-sequence-refused-zero-codons")
             return
-        _chk(ctx, "chunk.cds-sequence", False, key=(kk, name, "raised", type(e).__name__), label=label, window=w, exc=_exc(e), want=want, mech=mech)
+        _chk(ctx, "chunk.cds-sequence", False, key=(kk, name, "raised", type(e).__name__) + h, label=label, window=w, exc=_exc(e), want=want, mech=mech)
         return
-    _chk(ctx, "chunk.cds-sequence", r == want, key=(kk, name, "value"), label=label, window=w, got=r, want=want, want_codons=wcod, mech=mech, what=name)
+    _chk(ctx, "chunk.cds-sequence", r == want, key=(kk, name, "value") + h, label=label, window=w, got=r, want=want, want_codons=wcod, mech=mech, what=name, history=history)
 
 
 # ----------------------------------------------------------------------------------------------------------------
@@ -820,9 +908,20 @@ def run_tx_case(case, ctx):
         if coding and "cds" in built:
             check_location(ctx, "cds", label, built["cds"], M.blocks, strand, cs, ce)
             if model_ok:
-                check_cds_chunk(ctx, label, lambda: _build_cds(ts, chunk_p), M, cs, ce, case.get("ncw", 3), widx)
+                cguid = _guid_for("cds", ts["transcript_id"]) if mode == "supplied" else None
+                check_cds_chunk(ctx, label, lambda: _build_cds(ts, chunk_p, guid=cguid), M, cs, ce, case.get("ncw", 3), widx,
+                                whole_ans=WA[mode]["cds"], guidmode=mode, scan_wins=scan_wins, hseed=case["gseed"])
                 if "tx" in built and built["tx"].cds is not None and widx % 3 == 0:
-                    check_cds_chunk(ctx, label, lambda: GG.build_transcript(ts, chunk_p, "chr1"), M, cs, ce, 0, widx, via_tx=True)
+                    check_cds_chunk(ctx, label, lambda: GG.build_transcript(ts, chunk_p, "chr1"), M, cs, ce, 0, widx, via_tx=True,
+                                    whole_ans=WA[mode]["tx"], guidmode=mode, hseed=case["gseed"])
+                # history: the objects that answered the chromosome-level questions FIRST now answer the chunk-level codon questions
+                judge_cds_chunk(ctx, "cds", label, {n: ctx.call(f) for n, f in _cds_chunk_questions(lambda: built["cds"])}, M, cs, ce, "after-chromosome-level")
+                if "tx" in built and built["tx"].cds is not None:
+                    judge_cds_chunk(ctx, "tx.cds", label, {n: ctx.call(f) for n, f in _cds_chunk_questions(lambda: built["tx"].cds)}, M, cs, ce,
+                                    "after-chromosome-level")
+        # ---- history: the chromosome-level answers once more, AFTER every chunk-level accessor above was touched on the same objects ----
+        for k, o in built.items():
+            compare_answers(ctx, k, label, WA[mode][k], _answers(ctx, k, o, scan_wins if k == "cds" else ()), (cs, ce), mode, history="after-chunk-level")
 
 
 # ----------------------------------------------------------------------------------------------------------------
@@ -845,6 +944,7 @@ def _check_gene_like(ctx, kind, label, whole_obj, whole_ans, chunk_obj, gspec, g
     check_location(ctx, kind, label, chunk_obj, [span], "+", cs, ce)
     check_sequences(ctx, kind, label, chunk_obj, [span], "+", genome, cs, ce, span=span)
     if not monitor_children:
+        compare_answers(ctx, kind, label, whole_ans, _answers(ctx, kind, chunk_obj), (cs, ce), mode, history="after-chunk-level")
         return
     wchildren = {c.id: c for c in whole_obj.iter_children()}
     schildren = {c.id: c for c in source_obj.iter_children()} if source_obj is not None else wchildren
@@ -861,7 +961,8 @@ def _check_gene_like(ctx, kind, label, whole_obj, whole_ans, chunk_obj, gspec, g
             continue
         blocks = [tuple(b) for b in (cspec["exons"] if ck == "tx" else cspec["blocks"])]
         st = cspec["strand"]
-        compare_answers(ctx, ck, label + "/" + cid, _answers(ctx, ck, wch), _answers(ctx, ck, cch), (cs, ce), mode,
+        wa_child = _answers(ctx, ck, wch)
+        compare_answers(ctx, ck, label + "/" + cid, wa_child, _answers(ctx, ck, cch), (cs, ce), mode,
                         {"start": blocks[0][0], "end": blocks[-1][1], "strand": st, "blocks": blocks})
         if from_query:
             sch = schildren.get(cid, wch)
@@ -884,6 +985,9 @@ def _check_gene_like(ctx, kind, label, whole_obj, whole_ans, chunk_obj, gspec, g
                           child_strand=st, child_frames=cspec["frames"])
             elif cch.cds is None:
                 _chk(ctx, "twin.chromosome-answers", False, key=("tx", "cds-kept-when-sliced-out"), label=label + "/" + cid, window=[cs, ce])
+        # history: chromosome-level answers of the child again, after its chunk-level accessors were touched
+        compare_answers(ctx, ck, label + "/" + cid, wa_child, _answers(ctx, ck, cch), (cs, ce), mode, history="after-chunk-level")
+    compare_answers(ctx, kind, label, whole_ans, _answers(ctx, kind, chunk_obj), (cs, ce), mode, history="after-chunk-level")
 
 
 def run_coll_case(case, ctx):
